@@ -40,6 +40,27 @@ class PhysCtx:
         self.terminal_psi = tp
         self.pinned = self.term_sites if tp is not None else np.array([], dtype=int)
         self._A_cache = {}
+        self.eps_spec = scn["drive"].get("epsilon")
+        self._eps_static = None
+
+    def eps_declared(self, t):
+        """The declared disorder parameter epsilon(r, t) on the mesh sites (length units), evaluated
+        from the scenario's specification with a fresh function object."""
+        spec = self.eps_spec
+        pts = self.xi * self.rm.sites
+        if spec is None or spec["kind"] == "const":
+            return np.full(len(pts), 1.0 if spec is None else float(spec["v"]))
+        if spec["kind"] != "timedep" and self._eps_static is not None:
+            return self._eps_static
+        f = B.build_epsilon(spec)
+        if spec["kind"] == "timedep":
+            return np.asarray(f(pts, t=t), dtype=float)
+        if spec["kind"] == "spatial":
+            val = np.asarray(f(pts), dtype=float)
+        else:
+            val = np.array([float(f(r)) for r in pts])
+        self._eps_static = val
+        return val
 
     def A_applied(self, t):
         """Dimensionless applied vector potential on edges that should be in force at time t."""
@@ -186,6 +207,15 @@ class C02Update:
         a2 = np.asarray(kw["abs_sq_psi"], dtype=float)
         mu = np.asarray(kw["mu"], dtype=float)
         eps = np.asarray(kw["epsilon"], dtype=float)
+        cur = sim.cur
+        if cur is not None and sim.scn.get("physics") != "stub" and "drive" in sim.scn:
+            # w is defined with epsilon^n = epsilon(r, t^n): the declared function at the time of the step
+            want_eps = get_ctx(sim).eps_declared(cur["time"])
+            if want_eps.shape == eps.shape and not aeq(eps, want_eps):
+                de = np.abs(eps - want_eps)
+                if float(np.nanmax(de)) > 1e-12:
+                    i = int(np.nanargmax(de))
+                    return [Violation("epsilon-in-force", f"step {rec['step']} (stage {rec['stage']}, t={cur['time']:.6g}): the update is evaluated with epsilon = {eps[i]:.12g} at site {i} where the declared epsilon(r, t^n) = {want_eps[i]:.12g}", step=rec["step"], stage=rec["stage"], gamma=float(kw["gamma"]), dt=float(kw["dt"]))]
         gamma, u, dt = float(kw["gamma"]), float(kw["u"]), float(kw["dt"])
         lap = kw["psi_laplacian"] @ psi
         if not (np.all(np.isfinite(psi)) and np.all(np.isfinite(mu)) and np.all(np.isfinite(lap))):
